@@ -24,7 +24,7 @@ ASSUMPTIONS = ["marginal support: S = product of S_i with [kmin_i, kmax_i-1] <= 
                "sampling mode decided by Pearson chi-square, p>=1e-4 held, one escalation with 4x samples, p<1e-6 violated",
                "exact comparisons at 1e-12"]
 HEADLINE = ["loaders", "manual", "empirical", "function", "marginal_direct", "marginal_sampling", "dispatcher_path", "dispatcher_equal_checks", "recreate_checks", "update_history_checks", "in_place_observation_edits",
-            "box_points_evaluated", "shared_marginal_callable", "chi2_tests", "chi2_escalations"]
+            "box_points_evaluated", "shared_marginal_callable", "all_numpy_integer_marginals", "chi2_tests", "chi2_escalations"]
 REQUIRED = {t: {"manual": 10, "empirical": 10, "function": 10, "marginal_direct": 10, "marginal_sampling": 5,
                 "dispatcher_equal_checks": 30, "shared_marginal_callable": 8} for t in ("quick", "thorough")}
 TOL = 1e-12
@@ -42,10 +42,17 @@ def _table_fn(tab, calls):
     return f
 
 
-def _marginal(rng, lo, hi, calls):
+def _marginal(rng, lo, hi, calls, force=None):
     """returns (callable, exact value function as Fraction-able floats, descriptor)"""
     import gcmpy
-    kind = rng.choice(["table", "table", "exponential", "poisson", "power_law", "cutoff"])
+    kind = force or rng.choice(["table", "table", "exponential", "poisson", "power_law", "cutoff", "np-int-histogram"])
+    if kind == "np-int-histogram":
+        # unnormalised integer histograms as marginals (e.g. np.bincount of an observed degree column of a large network)
+        import numpy as np
+        dt = force_dtype.get("dt") or rng.choice([np.int64, np.int64, np.int32])
+        top = 6_000_000 if dt is np.int64 else 60_000
+        tab = {k: dt(rng.randint(top // 3, top)) for k in range(lo, hi + 1)}
+        return _table_fn(tab, calls), ("np-int-histogram", sorted((k, int(v)) for k, v in tab.items()))
     if lo == 0 and kind in ("power_law", "cutoff"):
         kind = "poisson"
     if kind == "table":
@@ -60,6 +67,9 @@ def _marginal(rng, lo, hi, calls):
         calls.append(k)
         return float(base(k))
     return f, (kind, par)
+
+
+force_dtype = {}
 
 
 def _same(a, b, tol=TOL):
@@ -200,11 +210,18 @@ def run_case(case):
             res.count("shared_marginal_callable")
         calls = [[] for _ in range(T)]
         fps, descr = [], []
+        allint = (not sampling) and T >= 2 and rng.random() < 0.2
+        if allint:
+            # every marginal an unnormalised numpy-integer histogram of one dtype: the product of the weights leaves the integer range
+            import numpy as np
+            force_dtype["dt"] = np.int64 if T >= 3 else np.int32
+            res.count("all_numpy_integer_marginals")
         for i, (lo, hi) in enumerate(bounds):
             if shared and i > 0:
                 fps.append(fps[0]); descr.append(descr[0]); continue
-            f, d = _marginal(rng, lo, hi, calls[i])
+            f, d = _marginal(rng, lo, hi, calls[i], force="np-int-histogram" if allint else None)
             fps.append(f); descr.append(d)
+        force_dtype.clear()
         params = {N.ARR_FP: fps, N.MOTIF_SIZES: sizes, N.LOW_HIGH_DEGREE_BOUND: bounds}
         sample.update(bounds=bounds, marginals=descr)
         pure = []
